@@ -212,6 +212,22 @@ func Handle(c *core.Check, st core.State) {
 						site += "(" + cv.Type().FriendlyName() + ")"
 					}
 				}
+				if small.K == "call" && (small.S == "try" || small.S == "can") {
+					// root cause: which argument of try / can succeeds depends on the marked content, and
+					// a failed argument leaves no value whose marks could be carried over
+					for _, arg := range small.Sub {
+						se, sd := hclsyntax.ParseExpression([]byte(e1.Render(arg, e1.Layout{})), "arg.hcl", hcl.InitialPos)
+						if sd.HasErrors() {
+							continue
+						}
+						_, d0 := se.Value(&hcl.EvalContext{Variables: e1.With(sc0, extra), Functions: funcs})
+						_, d1 := se.Value(&hcl.EvalContext{Variables: e1.With(sc1, extra), Functions: funcs})
+						if d0.HasErrors() != d1.HasErrors() {
+							site = "call:" + small.S + "/failed-argument"
+							break
+						}
+					}
+				}
 				if small.K == "cond" {
 					// root cause: the arm that is not selected fails for one of the two contents; its
 					// diagnostics are dropped but its placeholder still takes part in typing the result
@@ -227,7 +243,11 @@ func Handle(c *core.Check, st core.State) {
 						}
 					}
 				}
-				if !c.Violation("mark-lost/"+p.how+"/"+site,
+				sig := "mark-lost/" + p.how + "/" + site
+				if strings.HasSuffix(site, "/failed-argument") || site == "cond/unselected-arm-error" {
+					sig = "mark-lost/" + site // a named root cause, wherever the mark sits
+				}
+				if !c.Violation(sig,
 					fmt.Sprintf("%q: with %s = %s the result is %s, with %s = %s it is %s; the result depends on the marked variable but does not carry its mark (smallest laundering sub-expression: %q)",
 						src, x, e1.Describe(p.a), e1.Describe(r[0]), x, e1.Describe(p.b), e1.Describe(r[1]), e1.Render(small, e1.Layout{})), vec) {
 					return
